@@ -1,0 +1,18 @@
+//go:build verif
+
+package tasks
+
+// Machine-checked contracts for /verif (gowp). Comment-only file: it adds no code.
+
+// C13: get-or-create of the per-scope manager runs entirely inside one locked section
+//@ func (*Unit).FromScope [C13]
+//@   requires scp != nil
+//@   layers trace contract
+//@   trace LockData as LOCK
+//@   trace DataScopeLocker.Value as GET bind got
+//@   trace Scope.SetValue as RAWSET
+//@   trace Scope.Value as RAWGET
+//@   trace DataScopeLocker.SetValue as SET
+//@   trace DataScopeLocker.Commit as COMMIT
+//@   trace_ensures got == nil : ^LOCK GET SET COMMIT $
+//@   trace_ensures got != nil : ^LOCK GET COMMIT $
